@@ -713,6 +713,95 @@ func c09IsFormat(ev *Evaluator, r int64) (bool, error) {
 	return unicode.Is(unicode.Cf, rune(r)), nil
 }
 
+// c17Charsets: BOUNDED stand-in for the assumed encoder contract on the OUTPUT side (C17: "each cell is written as that
+// character set's encoding of its rune if representable"): for every registered stateless charset and every rune
+// the charset round-trips, the real tScreen.encodeRune (no ACS map, no fallbacks) and the real CanDisplay are run
+// natively: the bytes must be exactly the encoder's, CanDisplay must say true; for a sample of runes the charset
+// cannot represent the output must be '?' and CanDisplay false.  Exhaustive over single runes, not a proof.
+func c17Charsets(run *PropRun) {
+	data, err := os.ReadFile(filepath.Join(run.Eng.Repo, "encoding", "all.go"))
+	if err != nil {
+		panic(VerErr{"UNDECIDED: cannot read encoding/all.go: " + err.Error()})
+	}
+	re := regexp.MustCompile(`tcell\.RegisterEncoding\("([^"]+)",\s*([a-z]+)\.([A-Za-z0-9_]+)\)`)
+	var tbl strings.Builder
+	n := 0
+	for _, m := range re.FindAllStringSubmatch(string(data), -1) {
+		if m[1] == "ISO2022JP" || m[1] == "GB2312" {
+			continue
+		}
+		p := m[2]
+		if p == "encoding" {
+			p = "gencoding"
+		}
+		fmt.Fprintf(&tbl, "\t\t{%q, %s.%s},\n", m[1], p, m[3])
+		n++
+	}
+	if n < 10 {
+		panic(VerErr{fmt.Sprintf("UNDECIDED: only %d charset registrations found in encoding/all.go", n)})
+	}
+	src := replayTest("tcell", []string{"bytes", "golang.org/x/text/encoding", "github.com/gdamore/encoding as gencoding", "golang.org/x/text/encoding/charmap", "golang.org/x/text/encoding/japanese", "golang.org/x/text/encoding/korean",
+		"golang.org/x/text/encoding/simplifiedchinese", "golang.org/x/text/encoding/traditionalchinese", modPath + "/terminfo"}, fmt.Sprintf(`
+	sets := []struct {
+		name string
+		enc  encoding.Encoding
+	}{
+%s	}
+	for _, cs := range sets {
+		scr := &tScreen{ti: &terminfo.Terminfo{}}
+		scr.encoder = cs.enc.NewEncoder()
+		scr.charset = cs.name
+		ref := cs.enc.NewEncoder()
+		n, bad := 0, ""
+		for r := rune(0x20); r <= 0x2FFFF && bad == ""; r++ {
+			if r >= 0xD800 && r <= 0xDFFF || r == 0xFFFD || r == 0x7f || (r >= 0x80 && r < 0xa0) {
+				continue
+			}
+			ref.Reset()
+			eb, err := ref.Bytes([]byte(string(r)))
+			representable := err == nil && len(eb) > 0 && eb[0] != 0x1a
+			if representable {
+				if db, err := cs.enc.NewDecoder().Bytes(eb); err != nil || string(db) != string(r) {
+					continue // not a rune this charset round-trips
+				}
+			}
+			got := scr.encodeRune(r, nil)
+			switch {
+			case representable && !bytes.Equal(got, eb):
+				bad = fmt.Sprintf("U+%%04X is %% x in %%s but encodeRune wrote %% x", r, eb, cs.name, got)
+			case representable && !scr.CanDisplay(r, false):
+				bad = fmt.Sprintf("U+%%04X is representable in %%s but CanDisplay says no", r, cs.name)
+			case !representable && r%%97 == 0 && (string(got) != "?" || scr.CanDisplay(r, false)):
+				bad = fmt.Sprintf("U+%%04X is not representable in %%s but encodeRune wrote %% x, CanDisplay=%%v", r, cs.name, got, scr.CanDisplay(r, false))
+			}
+			n++
+		}
+		if bad == "" {
+			fmt.Printf("OUTCHARSET %%s OK %%d\n", cs.name, n)
+		} else {
+			fmt.Printf("OUTCHARSET %%s FAIL %%s\n", cs.name, bad)
+			fail("%%s: %%s", cs.name, bad)
+		}
+	}`, tbl.String()))
+	src = strings.Replace(src, "\t\"github.com/gdamore/encoding as gencoding\"\n", "\tgencoding \"github.com/gdamore/encoding\"\n", 1)
+	out, rerr := runOverlayTest(run.Eng.Repo, run.Eng.Repo, src, 300*time.Second, nil)
+	seen := 0
+	for _, ln := range strings.Split(out, "\n") {
+		f := strings.Fields(ln)
+		if len(f) < 3 || f[0] != "OUTCHARSET" {
+			continue
+		}
+		seen++
+		g := run.AddObligation(fmt.Sprintf("charset[%s]/every-rune-encoded-as-the-charset-does", f[1]), "bounded", BoolT(f[2] == "OK"),
+			fmt.Sprintf("for every rune %s round-trips, encodeRune writes exactly the charset's bytes and CanDisplay agrees; unrepresentable samples give '?': %s", f[1], strings.Join(f[2:], " ")))
+		g.ReplayGo = src
+	}
+	if seen != n {
+		run.Errors = append(run.Errors, fmt.Sprintf("output charset validator: %d of %d charsets reported (%v) %s", seen, n, rerr, tail(out, 600)))
+	}
+	run.Extra["charsets_enumerated_natively_for_output"] = seen
+}
+
 // ---- C11 / C18: bounded stand-in for the charset decoders (x/text tables are outside the verifier's reach) ----
 
 // c11Charsets runs, natively against the real code, the real input driver (tScreen.collectEventsFromInput) and the real
